@@ -23,7 +23,7 @@ func init() {
 			"(e) on the blinded edge SubmitProposal is reachable only through a nil error of the unblinding call, whose nil returns occur only on the arm that received a relay response and where the proposal's content is replaced by that response; " +
 			"(f) a graffiti failure still reaches proposeBlock and an auction failure still reaches the beacon node's Proposal call; (g) what is submitted is the value returned by the signing helper; " +
 			"(h) the auction results pointer is not dereferenced on a path where it may be nil. " +
-			"Added with the third seeding round: (h, extended) results of the package's own (T, error) helpers that can be nil without an error are dereferenced only behind a nil test. Added with the fourth seeding round: (b, extended) every value reaching SetRandaoReveal is the result of SignRANDAOReveal; (e, extended) a tested TryAcquire that succeeded is released on every path. Added with the fifth seeding round: (e, extended) the unblinding goroutines never wait for the semaphore with a blocking Acquire; (x) the cross-cutting rules (shadowed results, wrap of nil, nil without error, wait-group balance) inside the proposer and signer. Added with the sixth seeding round and the false-alarm regression: (y) C09.e (the collector waits under the strategy's deadline) is taken over; (x) no dereference of a call's result on a path that continues after its error was found non-nil. Added with the seventh seeding round: (k) in the signer a parameter that is passed on under a name the signer has a parameter for (a field of a literal, a named parameter of the callee) is that parameter. NOT decided: that the relay's full block corresponds to the blinded header (the relay is trusted), BLS validity (C06), retry timing.",
+			"Added with the third seeding round: (h, extended) results of the package's own (T, error) helpers that can be nil without an error are dereferenced only behind a nil test. Added with the fourth seeding round: (b, extended) every value reaching SetRandaoReveal is the result of SignRANDAOReveal; (e, extended) a tested TryAcquire that succeeded is released on every path. Added with the fifth seeding round: (e, extended) the unblinding goroutines never wait for the semaphore with a blocking Acquire; (x) the cross-cutting rules (shadowed results, wrap of nil, nil without error, wait-group balance) inside the proposer and signer. Added with the sixth seeding round and the false-alarm regression: (y) C09.e (the collector waits under the strategy's deadline) is taken over; (x) no dereference of a call's result on a path that continues after its error was found non-nil. Added with the seventh seeding round: (k) in the signer a parameter that is passed on under a name the signer has a parameter for (a field of a literal, a named parameter of the callee) is that parameter. Added after the tenth seeding round: (e, extended) a shared atomic counter that the unblinding goroutines bump and that is compared with the length of a collection is bumped on no cycle of a goroutine's body (it counts workers, not attempts). NOT decided: that the relay's full block corresponds to the blinded header (the relay is trusted), BLS validity (C06), retry timing.",
 		Technique: "SSA guard/edge-deletion queries with guard-helper summaries (error-nilness), provenance of call arguments and composite-literal fields, select-arm guards, maybe-nil dereference analysis",
 		Rule:      "one obligation per guarded effect, per signer argument, per signed-container literal field, per nil-able return, per dereference; non-trivial = the construct exists and a path/provenance query was evaluated",
 	})
@@ -613,6 +613,7 @@ func checkNoBlockingAcquire(p *core.Prog, r *core.Report, rule string, f *ssa.Fu
 }
 
 func checkUnblinder(p *core.Prog, r *core.Report, ds *core.Describer, f *ssa.Function) {
+	checkPerWorkerCounter(p, r, ds, "C05.e", f)
 	checkSemaphoreProbes(p, r, ds, "C05.e", f)
 	checkNoBlockingAcquire(p, r, "C05.e", f)
 	var sel *ssa.Select
@@ -736,4 +737,83 @@ func passedParameter(v ssa.Value) *ssa.Parameter {
 		}
 	}
 	return nil
+}
+
+// checkPerWorkerCounter: a shared atomic counter that the goroutines of f bump and that is measured against the length
+// of a collection (`failures.Load() >= len(providers)`: "every relay has failed") counts workers, not attempts — no
+// increment sits on a cycle of the goroutine's body. An increment inside the retry loop reaches the number of relays
+// while relays are still trying, and the waiter gives up although a relay would have returned the block.
+func checkPerWorkerCounter(p *core.Prog, r *core.Report, ds *core.Describer, rule string, f *ssa.Function) {
+	cellOf := func(v ssa.Value) ssa.Value {
+		switch x := v.(type) {
+		case *ssa.FreeVar:
+			return core.FreeVarBinding(x)
+		case *ssa.Alloc:
+			return x
+		}
+		return nil
+	}
+	atomicMethod := func(c *ssa.CallCommon, name string) ssa.Value {
+		callee := c.StaticCallee()
+		if callee == nil || callee.Pkg == nil || callee.Pkg.Pkg.Path() != "sync/atomic" || callee.Name() != name || len(c.Args) == 0 {
+			return nil
+		}
+		return cellOf(c.Args[0])
+	}
+	fns := append([]*ssa.Function{f}, f.AnonFuncs...)
+	// counters measured against a length
+	measured := map[ssa.Value]string{}
+	for _, fn := range fns {
+		core.EachInstr(fn, func(in ssa.Instruction) {
+			b, ok := in.(*ssa.BinOp)
+			if !ok {
+				return
+			}
+			switch b.Op {
+			case token.EQL, token.NEQ, token.LSS, token.LEQ, token.GTR, token.GEQ:
+			default:
+				return
+			}
+			for _, side := range [][2]ssa.Value{{b.X, b.Y}, {b.Y, b.X}} {
+				ld := ds.D(side[1])
+				if ld.Kind != "len" {
+					continue
+				}
+				v := side[0]
+				for i := 0; i < 3; i++ {
+					if cv, ok := v.(*ssa.Convert); ok {
+						v = cv.X
+					}
+				}
+				call, ok := v.(*ssa.Call)
+				if !ok {
+					continue
+				}
+				if cell := atomicMethod(&call.Call, "Load"); cell != nil {
+					measured[cell] = ld.String()
+				}
+			}
+		})
+	}
+	n := 0
+	for _, fn := range f.AnonFuncs {
+		core.EachInstr(fn, func(in ssa.Instruction) {
+			call, ok := in.(*ssa.Call)
+			if !ok {
+				return
+			}
+			cell := atomicMethod(&call.Call, "Add")
+			if cell == nil {
+				return
+			}
+			what, ok := measured[cell]
+			if !ok {
+				return
+			}
+			n++
+			r.Check(!core.InLoop(call), rule, fmt.Sprintf("%s|counter-measured-against-%s|once-per-worker#%d", core.FnKey(f), what, n), p.Pos(call.Pos()),
+				"the counter compared with "+what+" is bumped at most once per goroutine",
+				"a counter that is compared with "+what+" is incremented inside a loop of the goroutine (once per attempt, not once per worker): it reaches the number of workers while some are still trying, and the waiter gives up although one of them would have delivered")
+		})
+	}
 }
